@@ -241,6 +241,40 @@ def checkB (G : Grammar) (nTerms nRules : Nat) (T : Tables) (cert : Array (List 
   hasItem (itemsOf cert 0) ⟨0, 0, 0⟩ &&
   (List.range cert.size).all fun s => stateB G nTerms nRules F T cert s
 
+/-- No state has an action on the ERROR terminal (the grammar does not use `@error`), so the
+generated `_recover` can never resume. -/
+def NoErrorActions (T : Tables) (nStates : Nat) : Prop :=
+  ∀ s, s < nStates → find T.actions (s : Int) tERROR = .miss
+
+/-- Decision procedure for `NoErrorActions` (sound by `noErrorB_spec`). -/
+def noErrorB (T : Tables) (nStates : Nat) : Bool :=
+  (List.range nStates).all fun s => find T.actions (s : Int) tERROR == .miss
+
+/-! ### Termination check -/
+
+def keysOfRow (tbl : Array Int) (s : Nat) : List Nat :=
+  ((rowOf tbl (s : Int)).getD []).map fun e => e.1.toNat
+
+/-- Targets of the edges leaving state `q` (shift entries of `_actions`, all entries of `_goto`). -/
+def targetsOf (T : Tables) (q : Nat) : List Nat :=
+  (((rowOf T.actions (q : Int)).getD []).filterMap fun e =>
+    if e.2 ≠ acceptCode ∧ 0 ≤ e.2 then some e.2.toNat else none) ++
+  ((rowOf T.gotos (q : Int)).getD []).map fun e => e.2.toNat
+
+def termFuel (G : Grammar) (cert : Array (List Item)) : Nat := cert.size + G.prods.size + 16
+
+/-- Every local reduce-only run (from `[0]` and from `[s, q]` for every edge `q → s`, under every
+lookahead that has an action in the top state) leaves its local stack within `termFuel` steps.
+Together with `check` this bounds the number of consecutive reductions of the parser on EVERY
+input (`Lox.LR.terminates`). -/
+def termB (G : Grammar) (T : Tables) (cert : Array (List Item)) : Bool :=
+  let A := autoOf T cert
+  let F := termFuel G cert
+  ((keysOfRow T.actions 0).all fun a => Abs.lrun G A a F [0]) &&
+  (List.range cert.size).all fun q =>
+    (targetsOf T q).all fun s =>
+      (keysOfRow T.actions s).all fun a => Abs.lrun G A a F [s, q]
+
 /-- Untrusted: name the first failing condition. -/
 def diagnose (G : Grammar) (nTerms nRules : Nat) (T : Tables) (cert : Array (List Item)) :
     String :=
